@@ -311,6 +311,35 @@ pub mod mpsc {
         pub fn poll_recv(&mut self, cx: &mut Context<'_>) -> Poll<Option<T>> {
             poll_recv(self.0.get(), cx)
         }
+        /// tokio's `poll_recv_many`: up to `limit` queued values are appended to `buf` in queue
+        /// order; Ready(0) only when the channel is closed and empty (or `limit == 0`).
+        pub fn poll_recv_many(&mut self, cx: &mut Context<'_>, buf: &mut Vec<T>, limit: usize) -> Poll<usize> {
+            if limit == 0 {
+                return Poll::Ready(0);
+            }
+            let c = self.0.get();
+            let mut n = 0;
+            while n < limit {
+                match c.q.pop() {
+                    Some(v) => {
+                        buf.push(v);
+                        n += 1;
+                    }
+                    None => break,
+                }
+            }
+            if n > 0 {
+                if let Some(w) = c.tx_waker.take() {
+                    w.wake();
+                }
+                return Poll::Ready(n);
+            }
+            if c.rx_closed || c.senders == 0 {
+                return Poll::Ready(0);
+            }
+            c.rx_waker = Some(cx.waker().clone());
+            Poll::Pending
+        }
         pub fn recv(&mut self) -> RecvFut<'_, T> {
             RecvFut { c: &self.0 }
         }
